@@ -1,6 +1,7 @@
 package main
 
 import (
+	"net/http"
 	"encoding/json"
 	"fmt"
 	"math/rand"
@@ -63,7 +64,7 @@ func observedWire(c pcell, w *LabWire) (single string, pairs [][2]string, err er
 	case "query":
 		pairs, err = decodeQuery(w.RawQuery)
 	case "header":
-		single = strings.Join(w.Header[c.Name], "\x00")
+		single = strings.Join(w.Header[http.CanonicalHeaderKey(c.Name)], "\x00") // header names are case-insensitive; net/http stores them canonicalised
 	case "cookie":
 		ck := strings.Join(w.Header["Cookie"], "; ")
 		single = strings.TrimPrefix(ck, c.Name+"=")
@@ -124,6 +125,10 @@ func runC05(r *Report, rng *rand.Rand, thorough bool) {
 		r.Dist["client_side/"+o.cell.Loc]++
 		if o.res.Wire == nil {
 			if o.res.Err != "" {
+				if o.fw == "stdhttp" && strings.Contains(o.res.Err, "bad wildcard name") {
+					r.Violate("stdhttp_path_parameter_name_not_a_go_identifier", "std-http "+o.cell.key()+": "+o.res.Err, replay)
+					continue
+				}
 				r.Violate("client_error:"+o.cell.key(), o.res.Err, replay)
 			}
 			continue
@@ -218,6 +223,10 @@ func runC05(r *Report, rng *rand.Rand, thorough bool) {
 		res := results[id]
 		replay := map[string]any{"framework": m.fw, "cell": m.cell, "scenario": sc, "value": m.val.JSON}
 		if res == nil {
+			continue
+		}
+		if m.fw == "stdhttp" && strings.Contains(res.Err, "bad wildcard name") {
+			r.Violate("stdhttp_path_parameter_name_not_a_go_identifier", "std-http "+m.cell.key()+": "+res.Err, replay)
 			continue
 		}
 		r.Count("server:"+fmt.Sprint(sc["req"])+m.fw, true)
